@@ -84,3 +84,61 @@ func C19_History() {
 	}
 	nd.Assert(p.String() == fresh.String(), "C19/history-changes-String")
 }
+
+var _ = reg("C19_Repeat", C19_Repeat)
+
+// paths through the constructs that keep per-execution state in the
+// executor (generated object ids, the innermost array size, the current
+// item, compiled regular expressions, the structural-error switch)
+var repeatPaths = []string{
+	"$.keyvalue().keyvalue()", "$.keyvalue().value.keyvalue().id", "$[*].keyvalue().id", "$.keyvalue() ? (@.id > 0).key",
+	"$.*.keyvalue().keyvalue().id", "$[last]", "$ ? (@.a like_regex \"^a\")", "$.** ? (@.a == 1)", "$[*] ? (@[last] > 1)",
+	"$.keyvalue().keyvalue() ? (@.id == 20000000000)",
+}
+
+// C19_Repeat: an execution does not depend on any earlier execution, of the
+// same parsed path or of another one: the first execution in a fresh process
+// state and a later one, after other paths ran (executor-internal state such
+// as the generated-object counter, or anything pooled or cached between
+// runs, would show), return the same result.
+func C19_Repeat() {
+	src := modePrefix() + repeatPaths[nd.Choice(len(repeatPaths))]
+	es := nd.Spec{Kinds: nd.KFloat | nd.KString | nd.KArray | nd.KObject, Depth: 1, Width: 1, StrLen: 1, Keys: []string{"a", "b"}, ASCII: true}
+	var doc any
+	if nd.Choice(2) == 0 {
+		doc = []any{nd.JSON(es), nd.JSON(es)}
+	} else {
+		doc = map[string]any{"a": nd.JSON(es), "b": nd.JSON(es)}
+	}
+	p := parse(src)
+	nd.Freeze(p, doc)
+	a, aerr := p.Query(bg, doc)
+	ea, eaerr := p.Exists(bg, doc)
+	// history: the same path again, or another path, on this or another document
+	switch nd.Choice(4) {
+	case 0:
+		p.Query(bg, doc)
+	case 1:
+		parse("$.keyvalue().keyvalue()").Query(bg, map[string]any{"x": true, "y": "hi"})
+	case 2:
+		parse("strict $[*].keyvalue().id").Query(bg, doc, exec.WithSilent())
+		parse("$[last, 0] ? (@ like_regex \"b\")").First(bg, doc)
+	case 3:
+		p.Exists(bg, []any{map[string]any{"a": float64(1)}})
+	}
+	b, berr := p.Query(bg, doc)
+	eb, eberr := p.Exists(bg, doc)
+	w := nd.Thaw()
+	// the id of an object reached through the value of a generated triple is
+	// its address distance from that freshly allocated triple (known finding)
+	tag := "C19/repeat"
+	if contains(src, ".value.keyvalue()") {
+		tag += " [id-relative-to-generated-object]"
+	}
+	nd.Assert(w == "", tag+"/write-to-shared-state")
+	nd.Assert(errClass(aerr) == errClass(berr), tag+"/error-depends-on-history")
+	if aerr == nil && berr == nil {
+		nd.Assert(sameSeq(a, b, false), tag+"/result-depends-on-history")
+	}
+	nd.Assert(ea == eb && (eaerr == nil) == (eberr == nil), tag+"/Exists-depends-on-history")
+}
